@@ -1,6 +1,6 @@
 """C16 — scratch source trees and the subprocess launcher (used by harness/props/c16.py and
 harness/extract/pyc.py). Everything lives under one tempfile.mkdtemp() directory; the interpreter
-runs get `-X pycache_prefix=<scratch>/pyc`, PYTHONDONTWRITEBYTECODE removed and $VERIF_REPO first
+runs get `-S -X pycache_prefix=<scratch>/pyc` (no site-packages: stdlib + beartype only), PYTHONDONTWRITEBYTECODE removed and $VERIF_REPO first
 on PYTHONPATH, so nothing is ever written under /repo or /verif."""
 from __future__ import annotations
 
@@ -105,7 +105,7 @@ def run_once(prefix: Path, payload: dict, timeout=600) -> dict:
     env['PYTHONPATH'] = str(REPO)
     env['PYTHONHASHSEED'] = '0'
     payload = dict(payload, prefix=str(prefix))
-    p = subprocess.run([PY, '-X', f'pycache_prefix={prefix}', RUNNER], input=json.dumps(payload), capture_output=True,
+    p = subprocess.run([PY, '-S', '-X', f'pycache_prefix={prefix}', RUNNER], input=json.dumps(payload), capture_output=True,
                        text=True, timeout=timeout, env=env, cwd=str(prefix.parent))
     if p.returncode != 0 or not p.stdout.strip():
         raise RuntimeError(f'c16run failed rc={p.returncode}: {p.stderr[-3000:]}')
